@@ -266,6 +266,14 @@ def usage_run(k, sit):
         opts += ['--match-out', 'NOT-IN-THE-OUTPUT']
     elif f == 'match-err-absent':
         opts += ['--match-err', 'NOT-IN-THE-OUTPUT']
+    elif f == 'undecodable-output':
+        # every candidate that lost the marker 3 but kept check-sat prints
+        # bytes that are not UTF-8 (the check of such a candidate fails)
+        spec['near'] = {'pred': {'mode': 'contains', 'markers': ['check-sat']},
+                        'beh': {'exit': 1, 'out_hex': '62756720fffe0a',
+                                'out': '', 'err': 'assertion failure\n'},
+                        'acceptable': False}
+        opts += ['-j', '2']
     elif f.startswith('golden-timeout'):
         # every run of the command, the golden one included, exceeds the limit
         spec['sleep_ms'] = 1500
@@ -289,7 +297,8 @@ def usage_run(k, sit):
                        popen_hook=hook,
                        mangle=f if f not in ('none', 'interrupt',
                                              'match-out-absent',
-                                             'match-err-absent') and
+                                             'match-err-absent',
+                                             'undecodable-output') and
                        not f.startswith('golden-timeout') else None)
     return r
 
